@@ -32,7 +32,7 @@ def impl_answer(line):
         return im.names_out(sqimpl.unhx(rest))
     if cmd == 'LEX':
         return im.lex_out(sqimpl.unhx(rest))
-    if cmd in ('EVAL', 'SESSION', 'DEC', 'BUILTIN'):
+    if cmd in ('EVAL', 'SESSION', 'DEC', 'BUILTIN', 'FRESH'):
         import evalimpl
         return evalimpl.answer(im, cmd, rest)
     return 'bad-op'
@@ -62,6 +62,8 @@ def pool():
 
 
 def run_impl(lines, chunk=500):
+    if lines and lines[0].startswith(('SESSION', 'FRESH')):
+        chunk = 4
     if len(lines) <= chunk:
         return _impl_chunk(lines)
     chunks = [lines[i:i + chunk] for i in range(0, len(lines), chunk)]
